@@ -1,7 +1,7 @@
 #!/bin/sh
 # tools/allchecks.sh <tier> <seed>...   — runs every registered check sequentially for each seed, prints one line per run
 TIER=$1; shift
-cd /verif
+cd "$(dirname "$0")/.."
 for s in "$@"; do
   for i in 01 02 03 04 05 06 07 08 09 10 11 12 13 14 15 16 17 18 19 20; do
     out=$(VERIF_SEED=$s bin/check C$i $TIER 2>&1); code=$?
